@@ -21,6 +21,14 @@ FINISH = dict(rule='TLC over all interleavings of ICU/core interrupt operations;
                    'real Teakra validated at every instruction boundary')
 
 
+# the instructions through which a program touches the interrupt state: enable / disable, the return forms (conditional ones
+# included), the context forms, every mover of a status / mode word (st0..st2, stt2, mod3, icr hold ie, im, ic, ip)
+FAMILY = ['eint', 'dint', 'reti', 'retic', 'retid', 'retidc', 'trap', 'cntx_s', 'cntx_r', 'mov_icr', 'mov_icr_to',
+          'mov/Imm16,SttMod', 'mov/Abl,SttMod', 'mov/SttMod,Abl', 'mov/ArRn1,ArStep1,SttMod', 'mov/SttMod,ArRn1,ArStep1',
+          'mov/ArArpSttMod,MemR7Imm16', 'mov/MemR7Imm16,ArArpSttMod', 'alb/Alb,Imm16,SttMod', 'tstb/SttMod,Imm16',
+          'push/ArArpSttMod', 'pop/ArArpSttMod', 'push/Register', 'pop/Register']
+
+
 def run(ck):
     ck.build('sys_rec')
     ck.mc('IcuModel', ck.pick('MC_Icu_quick.cfg', 'MC_Icu.cfg'), timeout=3400, coverage=False)
@@ -33,9 +41,18 @@ def run(ck):
     files += sys_common.record(ck, ck.pick(6, 16), ck.pick(6, 12), tag='irqm', mode='irq', seedoff=1200)
     files += sys_common.record(ck, ck.pick(4, 12), ck.pick(4, 12), tag='irqio', mode='io', seedoff=800)
     sys_common.validate(ck, files)
+    # every encoding of those instructions from random states with random latches: ie / im / ip / ic after the instruction and
+    # the entry decision at its boundary are CoreCycle's (IsaTrace)
+    from props import isa_common
+    isa_common.family_check(ck, FAMILY, ck.pick(6, 24), 'c07i', parts=8)
     ck.sample_lines(files[0], 1, skip=5)
     ck.assumptions += sys_common.SYS_ASSUMPTIONS
 
 
 def replay(ck, path):
-    ck.validate_traces('SysTrace', 'Trace_Sys.cfg', [path.split('#')[0]])
+    import os
+    p = path.split('#')[0]
+    if os.path.basename(p).startswith('c07i'):
+        ck.validate_traces('IsaTrace', 'Trace_Isa.cfg', [p])
+    else:
+        ck.validate_traces('SysTrace', 'Trace_Sys.cfg', [p], jvm=['-Xss64m'])
